@@ -3274,7 +3274,7 @@ def cartesian(
             for i, (n, x) in enumerate(new_arrays.items()):
                 recordlookup.append(n)
                 layouts.append(x)
-                if n in nested:
+                if n in nested and i < len(new_arrays) - 1:
                     tonested.append(i)
             nested = tonested
 
